@@ -26,7 +26,7 @@ def RescaledBaseFeasible (base : AssetProblem) (k : Rat) (x : Vec) : Prop :=
     at base variables", `dispVars_lt`), with `0 < norm`: let `(x, s)` be a point whose scale component
     `s = x n` satisfies `0 ≤ s`, `min_scale ≤ s ≤ max_scale`.  Then `(x, s)` satisfies bounds and rows of the
     scaled problem iff `x` satisfies the base problem with every right-hand side and the bounds of every
-    dispatch variable multiplied by `s/norm`, the bounds of all other variables (internal, boolean, without
+    dispatch variable (type d, or non-boolean type i: dispatch at an internal node of a wrapped structure) multiplied by `s/norm`, the bounds of all other variables (internal boolean, without
     mapping row) unchanged — the widened box `min(0,l)·max_scale/norm ≤ x ≤ max(0,u)·max_scale/norm` is
     implied, which needs exactly `0 ≤ s ≤ max_scale` and `0 < norm` — and the value is the base value minus
     `s · fix_costs · Σdt`.  (No hypothesis on the columns of the base rows is needed for the equivalence;
